@@ -1,11 +1,19 @@
 //! pwcheck <ID> <quick|thorough>            run the check, write /verif/evidence/<ID>.json
 //! pwcheck <ID> replay <file>               re-run one recorded execution (twice)
 //! exit 0 = held on everything explored, 1 = VIOLATION, 2 = machinery failure
+#[macro_use]
 mod common;
+mod c01;
 mod c02;
 mod c03;
+mod c07;
+mod c08;
 mod c12;
 mod c13;
+mod c14;
+mod c15;
+mod c17;
+mod c18;
 mod c19;
 mod census;
 
@@ -13,11 +21,18 @@ use xplore::*;
 
 fn build(id: &str, thorough: bool, seed: u64) -> Option<Check> {
     Some(match id {
+        "C01" => c01::check(thorough, seed),
         "C02" => c02::check(thorough, seed),
         "C03" => c03::check_c03(thorough, seed),
         "C16" => c03::check_c16(thorough, seed),
+        "C07" => c07::check(thorough, seed),
+        "C08" => c08::check(thorough, seed),
         "C12" => c12::check(thorough, seed),
         "C13" => c13::check(thorough, seed),
+        "C14" => c14::check(thorough, seed),
+        "C15" => c15::check(thorough, seed),
+        "C17" => c17::check(thorough, seed),
+        "C18" => c18::check(thorough, seed),
         "C19" => c19::check(thorough, seed),
         _ => return None,
     })
